@@ -118,19 +118,37 @@ func (e *SEnv) lookupIdent(name string) (Val, bool) {
 	}
 	// loop invariants: locals shadow formals
 	if e.frame != nil {
+		// several locals may share a name (block scopes): take the innermost one whose
+		// declaration dominates the current program point
+		var best *ssa.Alloc
+		bestDepth := -1
 		for _, l := range e.frame.fn.Locals {
-			if l.Comment == name {
-				if l.Heap {
-					if pv, ok := e.frame.regs[l]; ok {
-						return e.st.load(e.r.placeOf(pv)), true
-					}
+			if l.Comment != name || l.Block() == nil {
+				continue
+			}
+			if e.frame.blk != nil && !l.Block().Dominates(e.frame.blk) {
+				continue
+			}
+			if l.Heap {
+				if _, ok := e.frame.regs[l]; !ok {
 					continue
 				}
-				key := cellKey{e.frame.id, l}
-				if cv, ok := e.st.cells[key]; ok {
-					return cv, true
-				}
+			} else if _, ok := e.st.cells[cellKey{e.frame.id, l}]; !ok {
+				continue
 			}
+			d := 0
+			for b := l.Block(); b != nil; b = b.Idom() {
+				d++
+			}
+			if d > bestDepth {
+				best, bestDepth = l, d
+			}
+		}
+		if best != nil {
+			if best.Heap {
+				return e.st.load(e.r.placeOf(e.frame.regs[best])), true
+			}
+			return e.st.cells[cellKey{e.frame.id, best}], true
 		}
 	}
 	if v, ok := e.vars[name]; ok {
